@@ -1368,8 +1368,8 @@ def gen_cases(ctx):
             if acc.get("ctx") is not None:
                 heap[str(acc["ctx"])] = enc({"init": {"i": 1}})
             yield {"op": "acc", "acc": acc, "heap": heap, "hist": hist, "may_raise": False}
-    n_split = 65000 if thorough else 3000
-    n_acc = 35000 if thorough else 2000
+    n_split = 55000 if thorough else 3000
+    n_acc = 30000 if thorough else 2000
     for _ in range(n_split):
         yield gen_split_case(rng)
     for _ in range(n_acc):
